@@ -226,7 +226,7 @@ def run_c10_known(ctx):
         return dict(root=F("R", [R(0, 1, [F(n)]) for n in names]), ctcs=[(f"c{i}", c) for i, c in enumerate(ctcs)])
     cases = [
         (None, "splot", "control:quoted name", free(["my feat", "B"], [OP("IMPLIES", T("my feat"), T("B"))])),
-        (key, "splot", "ampersand in a name (XML)", free(["a&b", "B"], [OP("IMPLIES", T("a&b"), T("B"))])),
+        (None, "splot", "control:ampersand and angle brackets in names (XML)", free(["a&b", "<x>"], [OP("IMPLIES", T("a&b"), T("<x>"))])),
         (key, "splot", "name starting with a minus sign", free(["A", "-A", "B"], [OP("IMPLIES", T("B"), T("-A"))])),
         (key, "splot", "double quote inside a name", free(["x y", "z w", 'x y" or "z w'], [T('x y" or "z w')])),
         (None, "pl", "control:plain names", free(["A", "B"], [OP("OR", T("A"), T("B"))])),
